@@ -399,6 +399,9 @@ class Interp:
                 if name == '__class__':
                     return c['cls']
                 return self.class_attr(v, c['cls'], name)
+            if c['k'] in ('hasher', 'hmac') and name == 'digest_size':
+                from .builtins_model import _HASH_LEN
+                return _HASH_LEN[c['alg']]
             return CellMethod(v, name)
         if isinstance(v, SV):
             if v.kind[0] == 'rec':
@@ -410,6 +413,11 @@ class Interp:
                 return self.class_attr(v, rt.cls, name)
             if v.kind == 'int' and name == 'to_bytes':
                 return BoundMethod(v, self.models.int_to_bytes_fn, name)
+            if v.kind == 'int' and name == 'bit_length':
+                uv = self.st.unique_value(v.e, force=True) if not self.st.merge else None
+                if uv is None:
+                    raise Unsupported("bit_length of a symbolic int")
+                return uv.bit_length
             return CellMethod(v, name)
         if isinstance(v, Closure):
             raise Unsupported("attribute of closure")
@@ -657,7 +665,7 @@ class Interp:
         closure_view = _EnvView(env, closure)
         return self.run_function(c.node, fr.globs, c.qual, args, kw, closure_view, None)
 
-    def bind_args(self, node, args, kw, qual):
+    def bind_args(self, node, args, kw, qual, fobj=None):
         a = node.args
         params = [x.arg for x in a.posonlyargs + a.args]
         env = {}
@@ -674,12 +682,19 @@ class Interp:
             if name in kw:
                 env[name] = kw.pop(name)
         ndef = len(a.defaults)
-        for name, d in zip(params[len(params) - ndef:], a.defaults):
+        real_defaults = getattr(fobj, '__defaults__', None) if fobj is not None else None
+        if real_defaults is not None and len(real_defaults) != ndef:
+            real_defaults = None
+        for j, (name, d) in enumerate(zip(params[len(params) - ndef:], a.defaults)):
             if name not in env:
-                env[name] = self.ev_default(d)
+                # defaults were evaluated when the function was defined: take the real objects
+                env[name] = real_defaults[j] if real_defaults is not None else self.ev_default(d)
+        real_kw = (getattr(fobj, '__kwdefaults__', None) or {}) if fobj is not None else {}
         for x, d in zip(a.kwonlyargs, a.kw_defaults):
             if x.arg in kw:
                 env[x.arg] = kw.pop(x.arg)
+            elif x.arg in real_kw:
+                env[x.arg] = real_kw[x.arg]
             elif d is not None:
                 env[x.arg] = self.ev_default(d)
             else:
@@ -705,7 +720,7 @@ class Interp:
         fr = Frame(fobj, {}, globs, qual, node, closure)
         self.frames.append(fr)
         try:
-            fr.env.update(self.bind_args(node, args, kw, qual))
+            fr.env.update(self.bind_args(node, args, kw, qual, fobj))
             fr.entry = dict(fr.env)
             fr.entry_heap = getattr(self, 'old_heap', None)
             if isinstance(node, ast.Lambda):
@@ -789,7 +804,11 @@ class Interp:
         fr.env[s.name] = Closure(s, fr, fr.qual + ".<locals>." + s.name)
 
     def st_Return(self, s):
-        raise _Return(None if s.value is None else self.ev(s.value))
+        v = None if s.value is None else self.ev(s.value)
+        hook = getattr(self, 'at_return_hook', None)
+        if hook is not None and len(self.frames) == 1 and not self.st.merge:
+            hook(self.frames[-1], v)
+        raise _Return(v)
 
     def st_Break(self, s):
         raise _Break()
